@@ -201,45 +201,90 @@ def c14c_bits(F, R):
 
 
 def _unspellable(F, text):
-    """True iff `LabelString::from_str` provably rejects `text`: some character fails the `.all(|c| ..)` alphabet test read from
-    its body (or the text is empty)."""
+    """True iff `LabelString::from_str` provably rejects `text`: some character fails the alphabet test read from its body
+    (`if !s.chars().all(|c| ok(c)) { Err }` or `if s.chars().any(|c| !ok(c)) { Err }`), or the text is empty."""
+    from .facts import bool_eval, BoolUnx
+    from .p_parse import parent_map
     p = F.method("riscv_analysis::parser::label::LabelString", "from_str", trait="FromStr")
     f = F.fn(p)
     if not text:
         return True
-    for m in walk(f["hir"]["value"], pats=False):
-        if m.get("k") == "MethodCall" and m["name"] == "all" and m["args"] and peel(m["args"][0]).get("k") == "Closure":
+    body = f["hir"]["value"]
+    pm = parent_map(body)
+    for m in walk(body, pats=False):
+        if m.get("k") == "MethodCall" and m["name"] in ("all", "any") and m["args"] and peel(m["args"][0]).get("k") == "Closure":
             cl = peel(m["args"][0])
             pn = [b_["name"] for p_ in cl.get("params", []) for b_ in walk(p_) if b_.get("k") == "PBinding"]
             if len(pn) != 1:
                 return False
-            # the `all` must guard an `Err` return: `if !s.chars().all(..) { return Err(()) }`
+            # the test must guard an `Err`: find the `if` it decides and the value of the test under which it rejects
+            x, iff = m, None
+            while id(x) in pm:
+                par = pm[id(x)]
+                if par.get("k") == "If" and any(y is m for y in walk(par["cond"], pats=False)):
+                    iff = par
+                    break
+                x = par
+            if iff is None or not any(c.get("k") == "Call" and short(callee_of(c) or "") == "Err" for c in walk(iff["then"], pats=False)):
+                return False
+            try:
+                rej_when = [v for v in (True, False) if bool_eval(iff["cond"], lambda e, m=m: "t" if (e is m or peel(e) is m) else None, {"t": v})]
+            except BoolUnx:
+                return False
+            if len(rej_when) != 1:
+                return False
+            # all(..) is False / any(..) is True as soon as one character makes the closure False / True
+            if (m["name"], rej_when[0]) not in (("all", False), ("any", True)):
+                return False
             for ch in text:
-                v = _char_pred(cl["body"], pn[0], ch)
-                if v is False:
+                v = _char_pred(cl["body"], pn[0], ch, F)
+                if v is rej_when[0]:
                     return True
             return False
     return False
 
 
-def _char_pred(e, pn, ch):
+def _char_pred(e, pn, ch, F=None, depth=0):
     e = peel(e)
     while e.get("k") == "Block" and not e.get("stmts") and e.get("expr") is not None:
         e = peel(e["expr"])
     k = e.get("k")
     if k == "Binary" and e["op"] in ("Or", "And"):
-        a, b = _char_pred(e["a"], pn, ch), _char_pred(e["b"], pn, ch)
+        a, b = _char_pred(e["a"], pn, ch, F, depth), _char_pred(e["b"], pn, ch, F, depth)
         if a is None or b is None:
             return None
         return (a or b) if e["op"] == "Or" else (a and b)
     if k == "Unary" and e["op"] == "Not":
-        a = _char_pred(e["a"], pn, ch)
+        a = _char_pred(e["a"], pn, ch, F, depth)
         return None if a is None else not a
     if k == "Binary" and e["op"] in ("Eq", "Ne"):
         x, y = peel(e["a"]), peel(e["b"])
         if x.get("k") == "Path" and x.get("res") == pn and y.get("k") == "Lit" and y["lit"]["t"] == "char":
             r = (y["lit"]["v"] == ch)
             return r if e["op"] == "Eq" else not r
+        return None
+    if k == "Call" and F is not None and depth < 3 and len(e.get("args", [])) == 1 and peel(e["args"][0]).get("k") == "Path" and peel(e["args"][0]).get("res") == pn:
+        # a named character class: `fn is_label_start(c: char) -> bool`
+        g = F.fns.get(callee_of(e) or "")
+        if g and "hir" in g and len(g["hir"]["params"]) == 1 and g["hir"]["params"][0].get("name"):
+            return _char_pred(g["hir"]["value"], g["hir"]["params"][0]["name"], ch, F, depth + 1)
+        return None
+    if k == "Match" and not e.get("src") and peel(e["scrut"]).get("res") == pn:
+        # matches!(c, 'a'..='z' | '_')
+        for arm in e["arms"]:
+            hit = arm["pat"].get("k") in ("PWild", "PBinding")
+            for p_ in walk(arm["pat"]):
+                if p_.get("k") == "PExpr" and peel(p_["e"]).get("k") == "Lit" and peel(p_["e"])["lit"]["v"] == ch:
+                    hit = True
+                if p_.get("k") == "PRange":
+                    lo, hi = lit_value(p_.get("lo") or {}), lit_value(p_.get("hi") or {})
+                    if isinstance(lo, str) and isinstance(hi, str) and lo <= ch <= hi:
+                        hit = True
+            if hit and arm.get("guard") is None:
+                v = lit_value(arm["body"])
+                return v if isinstance(v, bool) else None
+            if hit:
+                return None
         return None
     if k == "MethodCall" and peel(e["recv"]).get("res") == pn and not e["args"]:
         table = {"is_ascii_digit": ch.isascii() and ch.isdigit(), "is_alphabetic": ch.isalpha(), "is_alphanumeric": ch.isalnum(),
